@@ -215,7 +215,14 @@ func checkC09(c *Ctx) {
 		}
 		// R09n: two levels merged into one map replace each other only if the key ignores letter case, as header names do
 		{
-			folded := func(body ast.Node, e ast.Expr, depth int) bool { return caseFolded(ep.Info, body, e, depth) }
+			folded := func(body ast.Node, e ast.Expr, depth int) bool {
+				return caseFolded(ep.Info, body, e, depth, func(call *ast.CallExpr) (*ast.FuncDecl, *types.Info) {
+					if cal := ep.CalleeOf(call); cal != nil {
+						return ep.Funcs[ep.RecName(cal)], ep.Info
+					}
+					return nil, nil
+				})
+			}
 			if len(mergeLoops) >= 2 {
 				for _, ml := range mergeLoops {
 					ml := ml
@@ -1000,8 +1007,9 @@ func c09ViolationText(c *Ctx, ep *EmittedPkg, rid string) {
 		"validateHeaders puts the raw header value into FieldViolation.Description ("+bad+"): header values are arbitrary bytes; a value that is not valid UTF-8 makes protojson/proto.Marshal of the ValidationError fail, and the response degrades to a bare text 400 without any violation (also for the other offending headers of the request)")
 }
 
-// caseFolded: does the expression (through local definitions in body, three deep) pass through a case-normalising call?
-func caseFolded(info *types.Info, body ast.Node, e ast.Expr, depth int) bool {
+// caseFolded: does the expression (through local definitions in body, three deep, and through helper functions whose
+// every return is folded) pass through a case-normalising call? helper resolves a call to the helper's declaration.
+func caseFolded(info *types.Info, body ast.Node, e ast.Expr, depth int, helper ...func(*ast.CallExpr) (*ast.FuncDecl, *types.Info)) bool {
 	foldFns := map[string]bool{"strings.ToLower": true, "strings.ToUpper": true, "net/http.CanonicalHeaderKey": true, "net/textproto.CanonicalMIMEHeaderKey": true}
 	hit := false
 	ast.Inspect(e, func(n ast.Node) bool {
@@ -1010,6 +1018,26 @@ func caseFolded(info *types.Info, body ast.Node, e ast.Expr, depth int) bool {
 			if sel, ok := x.Fun.(*ast.SelectorExpr); ok {
 				if f, ok := info.Uses[sel.Sel].(*types.Func); ok && foldFns[f.FullName()] {
 					hit = true
+				}
+			}
+			if !hit && depth < 3 && len(helper) > 0 && helper[0] != nil {
+				if fd, hinfo := helper[0](x); fd != nil && fd.Body != nil {
+					nRet, all := 0, true
+					ast.Inspect(fd.Body, func(m ast.Node) bool {
+						if _, isLit := m.(*ast.FuncLit); isLit {
+							return false
+						}
+						if ret, ok := m.(*ast.ReturnStmt); ok && len(ret.Results) == 1 {
+							nRet++
+							if !caseFolded(hinfo, fd.Body, ret.Results[0], depth+1, helper...) {
+								all = false
+							}
+						}
+						return true
+					})
+					if nRet > 0 && all {
+						hit = true
+					}
 				}
 			}
 		case *ast.Ident:
@@ -1021,7 +1049,7 @@ func caseFolded(info *types.Info, body ast.Node, e ast.Expr, depth int) bool {
 				ast.Inspect(body, func(m ast.Node) bool {
 					if as, ok := m.(*ast.AssignStmt); ok && len(as.Lhs) == len(as.Rhs) {
 						for i, lh := range as.Lhs {
-							if id, ok := lh.(*ast.Ident); ok && info.ObjectOf(id) == obj && caseFolded(info, body, as.Rhs[i], depth+1) {
+							if id, ok := lh.(*ast.Ident); ok && info.ObjectOf(id) == obj && caseFolded(info, body, as.Rhs[i], depth+1, helper...) {
 								hit = true
 							}
 						}
@@ -1061,7 +1089,12 @@ func c09CombineKeys(c *Ctx, rid string) {
 			return true
 		}
 		n++
-		r.Check(caseFolded(info, decl.Body, ix.Index, 0), rid, fmt.Sprintf("CombineHeaders: %s is indexed by a case-folded name (index site %d)", types.ExprString(ix.X), n), c.P.Pos(ix.Pos()),
+		r.Check(caseFolded(info, decl.Body, ix.Index, 0, func(call *ast.CallExpr) (*ast.FuncDecl, *types.Info) {
+			if cal := Callee(info, call); cal != nil && c.P.Decls[cal] != nil {
+				return c.P.Decls[cal], c.P.DeclPkg[cal].TypesInfo
+			}
+			return nil, nil
+		}), rid, fmt.Sprintf("CombineHeaders: %s is indexed by a case-folded name (index site %d)", types.ExprString(ix.X), n), c.P.Pos(ix.Pos()),
 			"CombineHeaders indexes "+types.ExprString(ix)+" by the declared spelling: a method-level header spelled in another letter case does not replace the service-level one, the operation publishes two parameters for one (case-insensitive) header and the generated servers disagree with the document about which declaration is in force")
 		return true
 	})
